@@ -200,6 +200,9 @@ def read_exact(chk, prog):
         chk.undecided_("anchor/read_exact", "provided method LoadableAsset::read_exact not found")
         return
     w = Walker(prog, loop_bound=1)
+    for p in prog.fns:
+        if "index_mut" in p:
+            w.opaque_paths.add(p)
 
     def hook(w_, st, path, a, d, wh):
         if path.endswith("LoadableAsset::read"):
